@@ -629,7 +629,13 @@ func (s c10Stress) String() string {
 	return fmt.Sprintf("C10.stress %s %d %d %d %d %d", s.cf, s.g, s.ops, s.keys, st, s.seed)
 }
 
-func c10Key(j int) []byte { return []byte{byte('a' + j%26)} }
+// c10Key: one-byte keys for small key spaces; beyond 26 keys two more bytes tell them apart
+func c10Key(j int) []byte {
+	if j < 26 {
+		return []byte{byte('a' + j)}
+	}
+	return []byte{byte('a' + j%26), byte('A' + (j/26)%26), byte('0' + j/676)}
+}
 
 // every value is unique: "<g>.<i>" plus padding
 func c10Val(g, i, pad int) []byte {
@@ -657,7 +663,7 @@ func runC10Stress(s c10Stress) (hist [][]c10Op, c cache.Cache, failure string, h
 	switch cf.cb {
 	case 1:
 		conf.OnDelete = func(k, v []byte) {
-			if len(k) != 1 || len(v) < 3 {
+			if (len(k) != 1 && len(k) != 3) || len(v) < 3 {
 				setFail(fail("ondelete", "OnDelete(%s,%s): not an entry any Set stored", hx(k), hx(v)))
 			}
 			cbCalls.Add(1)
@@ -672,6 +678,26 @@ func runC10Stress(s c10Stress) (hist [][]c10Op, c cache.Cache, failure string, h
 	}
 	cc = cache.New(conf)
 	c = cc
+
+	var clock atomic.Int64
+	// A big key space (more than 26 keys) is a cache that is full of entries before the
+	// concurrent part starts: every key is set once, by a "goroutine" of its own in the history
+	// (index s.g), and the first call of every real goroutine is then a Clear — several Clears of
+	// a big cache at the same time, followed by ordinary traffic.
+	var pre []c10Op
+	if s.keys > 26 {
+		for j := 0; j < s.keys; j++ {
+			o := c10Op{g: s.g, i: j, k: c10Key(j), kind: 'S', v: c10Val(s.g, j, 0)}
+			if s.stamp {
+				o.inv = clock.Add(1)
+			}
+			o.rep = cc.Set(o.k, o.v)
+			if s.stamp {
+				o.ret = clock.Add(1)
+			}
+			pre = append(pre, o)
+		}
+	}
 
 	// plan the operations up front: no shared state while running
 	plans := make([][]c10Op, s.g)
@@ -692,11 +718,13 @@ func runC10Stress(s c10Stress) (hist [][]c10Op, c cache.Cache, failure string, h
 			default:
 				o.kind = 'T'
 			}
+			if s.keys > 26 && i == 0 {
+				o.kind, o.v = 'C', nil
+			}
 			plans[g] = append(plans[g], o)
 		}
 	}
 
-	var clock atomic.Int64
 	var ready atomic.Int32
 	start := make(chan struct{})
 	var wg sync.WaitGroup
@@ -767,11 +795,11 @@ func runC10Stress(s c10Stress) (hist [][]c10Op, c cache.Cache, failure string, h
 	case <-done:
 	case <-time.After(c10StressTimeout):
 		stop.Store(true)
-		return plans, cc, fail("hang", "%d goroutines did not finish %d calls each in %v", s.g, s.ops, c10StressTimeout), true
+		return append(plans, pre), cc, fail("hang", "%d goroutines did not finish %d calls each in %v", s.g, s.ops, c10StressTimeout), true
 	}
 	stop.Store(true)
 	<-monDone
-	return plans, cc, failure, false
+	return append(plans, pre), cc, failure, false
 }
 
 // oracles (a), (b), (c) on a recorded history with stamps; also: did two calls overlap
@@ -1332,6 +1360,16 @@ func genC10(rng *rand.Rand, tier string) (cases []string) {
 		s.stamp = i%3 != 0
 		if i%25 == 24 {
 			s.g, s.ops = 16, 150
+		}
+		if i%20 == 13 {
+			// a big cache (no limits that would keep it small), cleared by several goroutines
+			// at once, then ordinary traffic
+			s.cf.maxSize, s.cf.maxCount, s.cf.maxElem = 0, 0, 0
+			s.keys = pick(rng, 300, 1023, 1024, 1025, 1100, 2100)
+			if v, ok := dictInt(rng, 27, 5000); ok && rng.IntN(2) == 0 {
+				s.keys = int(v) + pick(rng, 0, 1, 76)
+			}
+			s.g, s.ops = pick(rng, 2, 3, 4, 8), pick(rng, 4, 10, 20)
 		}
 		cases = append(cases, s.String())
 	}
